@@ -1085,7 +1085,7 @@ pub fn run_check(tier_name: &str, seed: u64, verif_dir: &str) -> Outcome {
     let mut vocabulary_jobs = 0usize;
     {
         let mut vrng = rng.fork(7);
-        let (n, len) = if tier.name == "thorough" { (16usize, 520usize) } else { (6usize, 330usize) };
+        let (n, len) = if tier.name == "thorough" { (12usize, 1000usize) } else { (5usize, 560usize) };
         let n = envnum("VERIF_C12_VOCAB_MARATHONS", n);
         let len = envnum("VERIF_C12_VOCAB_LEN", len);
         let pool: Vec<usize> = (0..programs.len())
